@@ -284,7 +284,7 @@ class Interp:
                 return z3.BoolVal(False)
             return a.z == b.z
         if isinstance(a, VObj) and isinstance(b, VObj):
-            return z3.BoolVal(a is b)
+            return z3.BoolVal(a is b or a.oid == b.oid)      # a snapshot (old/at_entry) keeps the oid
         if isinstance(a, VDict) and isinstance(b, VDict):
             if set(a.d) != set(b.d):
                 return z3.BoolVal(False)
@@ -324,6 +324,8 @@ class Interp:
             return z3.And(J.is_jbool(a.z), J.b(a.z) == b.z)
         if isinstance(a, VOpaque) and isinstance(b, VOpaque):
             return self.eq(a, b)
+        if isinstance(a, VObj) and isinstance(b, VObj):
+            return z3.BoolVal(a is b or a.oid == b.oid)      # a snapshot (old/at_entry) keeps the oid
         if isinstance(a, VObj) or isinstance(b, VObj):
             return z3.BoolVal(a is b)
         return self.eq(a, b)
